@@ -416,6 +416,8 @@ func verif_client_registerRouteHandlers(svr *Service, helper *httppkg.RouterRegi
 	svr.registerRouteHandlers(helper)
 	verif.Ensures(verif.CallCountWith2("mux.Router).HandleFunc", 0, root, 1, "/healthz") == 1 && verif.CallCountWith("mux.Router).NewRoute", 0, root) == 1, "unauthenticated_router_serves_the_liveness_probe_only")
 	sub := verif.Ret[*mux.Router]("mux.Route).Subrouter", 0)
+	verif.Assume(sub != root, "gorilla/mux: (*Route).Subrouter returns a new router, not the one the route was cut from")
+	verif.Ensures(verif.CallCountWith("mux.Router).", 0, root) == 2, "unauthenticated_router_gets_no_other_call")
 	verif.Ensures(verif.CallCount("mux.Route).Subrouter") == 1 && verif.Same(verif.NthArg[*mux.Route]("mux.Route).Subrouter", 0, 0), verif.Ret[*mux.Route]("mux.Router).NewRoute", 0)), "one_sub_router_cut_from_the_root")
 	verif.Ensures(verif.CallCountWith("mux.Router).Use", 0, sub) == 1, "sub_router_carries_the_auth_middleware")
 	verif.Ensures(verif.CallCount("mux.Router).") == 2+verif.CallCountWith("mux.Router).", 0, sub), "every_other_registration_goes_to_the_sub_router")
